@@ -5,7 +5,8 @@ import itertools
 from collections import namedtuple
 
 from .model import AnalysisError, node_src, is_self_attr, call_name
-from .paths import Interp, Domain, Env, TOP, NONE, Const, Exc, ORD, ASYNC, fmt_trace, Opaque, Ctx
+from .colls import ExactCollections
+from .paths import Interp, Domain, Env, TOP, NONE, Const, Exc, ORD, ASYNC, fmt_trace, Opaque, Ctx, ClassRef, TupleV
 from .report import walk_no_nested
 
 LEVEL = "proof"
@@ -314,119 +315,237 @@ def run(chk):
         r4.expect(oka, "a BaseException from the delegate propagates at once (never retried, no sleep)", "RetryingClient._retry:BaseException-retried", "a BaseException raised by the wrapped call is intercepted by the retry handler", fn=rt, node=loop)
 
     # ------------------------------------------------------------------ R5 constructor guards
-    r5 = chk.rule("C17.R5", "construction: attempts <= 0 rejected (linear normal form), argument containers and element classes validated, overlap rejected, all with ValueError")
-    init = prog.method(rc, "__init__")
-    guards = [n for n in walk_no_nested(init.node) if isinstance(n, ast.If) and any(isinstance(x, ast.Name) and x.id == "attempts" for x in ast.walk(n.test))]
-    okg = False
-    why = "no guard on `attempts` found"
-    if len(guards) == 1:
-        hl = half_line(guards[0].test, "attempts")
-        raises = [x for x in guards[0].body if isinstance(x, ast.Raise)]
-        cls = call_name(raises[0].exc) if raises and isinstance(raises[0].exc, ast.Call) else None
-        okg = hl == ("le", 0) and cls == "ValueError"
-        why = "guard `%s` rejects attempts %s and raises %s" % (node_src(guards[0].test), ("<= %d" % hl[1] if hl and hl[0] == "le" else ">= %d" % hl[1] if hl else "?"), cls)
-        # the guard dominates the assignment of self._attempts
-        asg = [n for n in walk_no_nested(init.node) if isinstance(n, ast.Assign) and any(is_self_attr(t, "_attempts") for t in n.targets)]
-        okg = okg and asg and guards[0].lineno < asg[0].lineno
-    r5.expect(okg, "attempts guard is exactly `attempts <= 0 => ValueError` and precedes the first use", "RetryingClient.__init__:attempts-guard", "invalid `attempts` are not rejected exactly: %s (required: reject every attempts < 1 with ValueError, accept 1)" % why, fn=init, node=guards[0] if guards else init.node)
-    et = prog.function("pymemcache/client/retrying.py", "_ensure_tuple_argument")
-    _check_ensure_tuple(prog, et, r5)
-    # both filters go through it
-    for attr, par in (("_retry_for", "retry_for"), ("_do_not_retry_for", "do_not_retry_for")):
-        asg = [n for n in walk_no_nested(init.node) if isinstance(n, ast.Assign) and any(is_self_attr(t, attr) for t in n.targets)]
-        okv = len(asg) == 1 and isinstance(asg[0].value, ast.Call) and call_name(asg[0].value) == "_ensure_tuple_argument" and len(asg[0].value.args) == 2 and isinstance(asg[0].value.args[1], ast.Name) and asg[0].value.args[1].id == par
-        r5.expect(okv, "self.%s = _ensure_tuple_argument(.., %s)" % (attr, par), "RetryingClient.__init__:%s-unvalidated" % par, "self.%s is not the validated form of the `%s` argument" % (attr, par), fn=init)
-    # overlap
-    ov = False
-    for n in walk_no_nested(init.node):
-        if isinstance(n, ast.For) and is_self_attr(n.iter) and n.iter.attr in ("_retry_for", "_do_not_retry_for") and isinstance(n.target, ast.Name):
-            other = "_do_not_retry_for" if n.iter.attr == "_retry_for" else "_retry_for"
-            for i in ast.walk(n):
-                if isinstance(i, ast.If) and isinstance(i.test, ast.Compare) and len(i.test.ops) == 1 and isinstance(i.test.ops[0], ast.In) and isinstance(i.test.left, ast.Name) and i.test.left.id == n.target.id and is_self_attr(i.test.comparators[0], other):
-                    rs = [x for x in i.body if isinstance(x, ast.Raise) and isinstance(x.exc, ast.Call) and call_name(x.exc) == "ValueError"]
-                    ov = ov or bool(rs)
-    r5.expect(ov, "a class present in both lists is rejected with ValueError", "RetryingClient.__init__:overlap-check", "the constructor no longer rejects an exception class that is in both retry_for and do_not_retry_for with ValueError", fn=init)
+    r5 = chk.rule("C17.R5", "construction, interpreted end to end on exact argument collections: attempts < 1 rejected for every integer, argument containers and element classes validated, overlap rejected, all with ValueError; valid configurations are stored as given")
+    constructor_rows(prog, prog.method(rc, "__init__"), r5)
 
 
-def _check_ensure_tuple(prog, et, r5):
-    """Type-class table for _ensure_tuple_argument."""
-    class TagDomain(Domain):
-        async_enabled = False
+IntSym = namedtuple("IntSym", "name")  # an unknown integer; its interval is state[("iv", name)] = (lo, hi), None = unbounded
+Arg = namedtuple("Arg", "tag items")  # a caller-supplied container of the given Python type
+TypeTag = namedtuple("TypeTag", "name")
 
-        def __init__(self, tag, all_ok):
-            super().__init__(prog, et)
-            self.tag = tag
-            self.all_ok = all_ok
-            self.issub = []
 
-        def call(self, node, fval, args, kwargs, state):
-            name = call_name(node)
-            if name == "isinstance" and len(node.args) == 2 and isinstance(node.args[0], ast.Name) and node.args[0].id == et.pos_params()[1].name:
-                t = node.args[1]
-                names = [e.id for e in t.elts] if isinstance(t, ast.Tuple) else ([t.id] if isinstance(t, ast.Name) else [])
-                return [("ok", Const(self.tag in names), state)]
-            if name == "all":
-                return [("ok", Const(self.all_ok), state)]
-            if name == "issubclass":
-                okform = len(args) == 2 and args[0] == Opaque("element") and isinstance(node.args[1], ast.Name) and node.args[1].id == "Exception"
-                self.issub.append((node, okform))
-                # the abstract element stands for the offending element if there is one, else for any (valid) element
-                return [("ok", Const(self.all_ok), state)]
-            if name == "tuple":
-                return [("ok", Opaque("tuple-of-arg" if node.args else "empty-tuple"), state)]
+class InitDomain(ExactCollections, Domain):
+    """RetryingClient.__init__ with module-level helpers inlined."""
+
+    async_enabled = False
+    subscript_may_raise = False
+    unpack_may_raise = False
+    max_inline_depth = 3
+
+    def mark_imprecise(self, state, node):
+        return state.set("imprecise", 1)
+
+    def is_global_key(self, k):
+        return k == "imprecise" or super().is_global_key(k)
+
+    def name_load(self, name, state, node=None):
+        if state.has(name):
+            return state.get(name)
+        if name in ("tuple", "set", "list", "dict", "frozenset", "str", "int", "bytes"):
+            return TypeTag(name)
+        return TOP
+
+    def attr_load(self, objval, node, state):
+        b = self.coll_attr(objval, node)
+        if b is not None:
+            return b
+        return super().attr_load(objval, node, state)
+
+    def _seq(self, itval, state=None):
+        if isinstance(itval, Arg):
+            return itval.items if itval.tag in ("tuple", "list", "set", "frozenset") else None
+        return super()._seq(itval, state)
+
+    def truth(self, v, state=None):
+        if isinstance(v, Arg):
+            return len(v.items) > 0 if v.items is not None else None
+        if isinstance(v, TypeTag):
+            return True
+        return super().truth(v, state)
+
+    def never_none(self, v):
+        return isinstance(v, (Arg, TypeTag, IntSym)) or super().never_none(v)
+
+    def _iv(self, v, state):
+        return state.get(("iv", v.name), (None, None))
+
+    def compare(self, node, op, l, r, state):
+        for a, b, flip in ((l, r, False), (r, l, True)):
+            if isinstance(a, IntSym) and isinstance(b, Const) and isinstance(b.v, int) and not isinstance(b.v, bool) and isinstance(op, (ast.Lt, ast.LtE, ast.Gt, ast.GtE, ast.Eq, ast.NotEq)):
+                lo, hi = self._iv(a, state)
+                t = _rel(type(op), flip)
+                yes, no = _split(lo, hi, t, b.v)
+                if yes is None:
+                    return Const(False)
+                if no is None:
+                    return Const(True)
+                return TOP
+        return super().compare(node, op, l, r, state)
+
+    def refine_compare(self, node, op, lexpr, l, rexpr, r, branch, state):
+        for a, b, flip in ((l, r, False), (r, l, True)):
+            if isinstance(a, IntSym) and isinstance(b, Const) and isinstance(b.v, int) and not isinstance(b.v, bool) and isinstance(op, (ast.Lt, ast.LtE, ast.Gt, ast.GtE, ast.Eq, ast.NotEq)):
+                lo, hi = self._iv(a, state)
+                yes, no = _split(lo, hi, _rel(type(op), flip), b.v)
+                iv = yes if branch else no
+                if iv is None:
+                    return None
+                if iv == "hole":
+                    return state  # != on an interval: not representable, keep
+                return state.set(("iv", a.name), iv)
+        return super().refine_compare(node, op, lexpr, l, rexpr, r, branch, state)
+
+    def binop(self, node, l, r, state):
+        if isinstance(l, IntSym) or isinstance(r, IntSym):
+            return TOP
+        return super().binop(node, l, r, state)
+
+    def call(self, node, fval, args, kwargs, state):
+        r = self.coll_call(node, fval, args, kwargs, state)
+        if r is not None:
+            return r
+        name = call_name(node)
+        if name == "isinstance" and len(args) == 2:
+            tags = [t.name for t in (args[1].items if isinstance(args[1], TupleV) else [args[1]]) if isinstance(t, TypeTag)]
+            v = args[0]
+            ty = v.tag if isinstance(v, Arg) else ("tuple" if isinstance(v, TupleV) else ("NoneType" if v == NONE else ("int" if isinstance(v, IntSym) else (type(v.v).__name__ if isinstance(v, Const) else None))))
+            if ty is not None and tags:
+                return [("ok", Const(ty in tags), state)]
             return [("ok", TOP, state)]
+        if isinstance(fval, TypeTag) and fval.name in ("tuple", "list", "set", "frozenset") and len(args) <= 1:
+            if not args:
+                return [("ok", TupleV(()), state)]
+            seq = self._seq(args[0], state)
+            if seq is not None:
+                return [("ok", TupleV(tuple(seq)) if fval.name == "tuple" else Arg(fval.name, tuple(seq)), state)]
+            return [("exc", Exc(ORD, "TypeError", node.lineno), state)]
+        if name == "issubclass" and len(args) == 2:
+            c, b = args
+            if isinstance(c, ClassRef) and isinstance(b, ClassRef):
+                return [("ok", Const(b.name in self.prog.exception_bases(c.name) or b.name == c.name), state)]
+            if isinstance(c, (Const, Opaque)):
+                return [("exc", Exc(ORD, "TypeError", node.lineno), state)]
+            return [("ok", TOP, state)]
+        if isinstance(node.func, ast.Name) and node.func.id in self.fn.module.functions:
+            res = self.inline(node, self.fn.module.functions[node.func.id], args, kwargs, state)
+            if res is not None:
+                return res
+        return [("ok", TOP, state)]
 
-        def for_next(self, node, itval, state):
-            if itval in (Opaque("tuple-of-arg"), Opaque("arg")):
-                k = ("visited", getattr(node, "lineno", 0))
-                if state.get(k, False):
-                    return []
-                return [(Opaque("element"), state.set(k, True))]
-            return [(TOP, state)]
 
-        def for_exhausted(self, node, itval, state):
-            if itval in (Opaque("tuple-of-arg"), Opaque("arg")) and not state.get(("visited", getattr(node, "lineno", 0)), False):
-                return None
-            return state
+def _rel(op, flip):
+    if flip:
+        op = {ast.Lt: ast.Gt, ast.LtE: ast.GtE, ast.Gt: ast.Lt, ast.GtE: ast.LtE}.get(op, op)
+    return op
 
-        def comprehension(self, node, elem_values, state):
-            return Opaque("list-of-tests")
 
-        def name_load(self, name, state, node=None):
-            if name == et.pos_params()[1].name and not state.has(name):
-                return Const(None) if self.tag == "None" else Opaque("arg")
-            return state.get(name, TOP)
+def _split(lo, hi, op, c):
+    """Interval (lo, hi) of x split by `x op c`: -> (interval where true | None, interval where false | None)."""
+    def cut(lo2, hi2):
+        lo3 = lo2 if lo is None else (lo if lo2 is None else max(lo, lo2))
+        hi3 = hi2 if hi is None else (hi if hi2 is None else min(hi, hi2))
+        if lo3 is not None and hi3 is not None and lo3 > hi3:
+            return None
+        return (lo3, hi3)
 
+    if op is ast.Lt:
+        return cut(None, c - 1), cut(c, None)
+    if op is ast.LtE:
+        return cut(None, c), cut(c + 1, None)
+    if op is ast.Gt:
+        return cut(c + 1, None), cut(None, c)
+    if op is ast.GtE:
+        return cut(c, None), cut(None, c - 1)
+    inside = cut(c, c)
+    outside = "hole" if (lo, hi) != (c, c) else None
+    if op is ast.Eq:
+        return inside, outside
+    return outside, inside
+
+
+def constructor_rows(prog, init, r5):
+    from .rules_C05 import judge, settle, Val
+
+    A, B_, C_ = ClassRef("OSError"), ClassRef("KeyError"), ClassRef("MemcacheError")
+    KI = ClassRef("KeyboardInterrupt")  # a BaseException that is not an Exception
+    pn = {p.name for p in init.params}
+    for need in ("client", "attempts", "retry_delay", "retry_for", "do_not_retry_for"):
+        if need not in pn:
+            raise AnalysisError("C17.R5: RetryingClient.__init__ has no parameter `%s`" % need)
+
+    def run(attempts, retry_for, do_not):
+        dom = InitDomain(prog, init)
+        env = {"client": Opaque("client"), "attempts": attempts, "retry_delay": Val("arg:retry_delay"), "retry_for": retry_for, "do_not_retry_for": do_not}
+        return Interp(dom, init.node, prog).run(Env(env))
+
+    # ---- attempts: every integer
+    outs = run(IntSym("attempts"), NONE, NONE)
+    bad = []
+    rej = acc = 0
+    for s, e, t in outs.of("exc"):
+        lo, hi = s.get(("iv", "attempts"), (None, None))
+        rej += 1
+        if e.cls != "ValueError" or hi is None or hi > 0:
+            bad.append("an attempts value in %s is rejected with %s" % (_ivs(lo, hi), e.cls))
+    for s, v, t in outs.of("ret"):
+        lo, hi = s.get(("iv", "attempts"), (None, None))
+        acc += 1
+        if lo is None or lo < 1:
+            bad.append("an attempts value in %s is accepted" % _ivs(lo, hi))
+        if s.get("self._attempts", None) != IntSym("attempts"):
+            bad.append("the accepted value is not what is stored in self._attempts")
+    if not rej:
+        bad.append("no attempts value is rejected")
+    if not acc:
+        bad.append("no attempts value is accepted")
+    r5.expect(not bad, "attempts: rejected with ValueError exactly when < 1 (interval analysis over all integers), stored unchanged otherwise", "RetryingClient.__init__:attempts-guard", "invalid `attempts` are not rejected exactly: %s (required: reject every attempts < 1 with ValueError, accept every attempts >= 1)" % "; ".join(bad), fn=init, node=init.node)
+
+    # ---- containers and element classes, for each of the two filters
     rows = 0
-    for tag in ("None", "tuple", "set", "list", "dict", "str", "frozenset", "int"):
-        for all_ok in (True, False):
-            d = TagDomain(tag, all_ok)
-            outs = Interp(d, et.node, prog).run(Env())
+    for par, attr in (("retry_for", "self._retry_for"), ("do_not_retry_for", "self._do_not_retry_for")):
+        def go(v):
+            return run(Const(2), v, NONE) if par == "retry_for" else run(Const(2), NONE, v)
+
+        def stored(want):
+            return lambda outs_: None
+
+        cases = [("None", NONE, TupleV(()))]
+        for tag in ("tuple", "list", "set"):
+            cases.append(("%s of Exception subclasses" % tag, Arg(tag, (A, B_)), TupleV((A, B_))))
+            cases.append(("empty %s" % tag, Arg(tag, ()), TupleV(())))
+        for desc, v, want in cases:
             rows += 1
-            rets, excs = outs.of("ret"), outs.of("exc")
-            if tag == "None":
-                ok = len(rets) >= 1 and not excs and all(v in (Opaque("empty-tuple"), Const(())) for s, v, t in rets)
-                want = "return an empty tuple"
-            elif tag in ("tuple", "set", "list"):
-                if all_ok:
-                    ok = len(rets) >= 1 and not excs and all(v == Opaque("tuple-of-arg") for s, v, t in rets)
-                    want = "return tuple(argument)"
-                else:
-                    ok = not rets and excs and all(e.cls == "ValueError" for s, e, t in excs)
-                    want = "raise ValueError for a non-Exception element"
-            else:
-                ok = not rets and excs and all(e.cls == "ValueError" for s, e, t in excs)
-                want = "raise ValueError for a container of type %s" % tag
-            r5.expect(ok, "_ensure_tuple_argument(%s, elements %s) must %s" % (tag, "ok" if all_ok else "bad", want), "_ensure_tuple_argument:row:%s:%s" % (tag, all_ok), "_ensure_tuple_argument on a %s argument (elements %s) must %s but %s" % (tag, "all Exception subclasses" if all_ok else "not all Exception subclasses", want, ("returns %s" % [v for s, v, t in rets]) if rets else ("raises %s" % [e.cls for s, e, t in excs])), fn=et, node=et.node)
-    # the element test is issubclass(<element>, Exception), applied to the elements of the (converted) argument
-    forms = []
-    for all_ok in (True, False):
-        d = TagDomain("list", all_ok)
-        Interp(d, et.node, prog).run(Env())
-        forms += d.issub
-    ok = bool(forms) and all(f[1] for f in forms)
-    r5.expect(ok, "element test is issubclass(element, Exception) over the elements of the argument", "_ensure_tuple_argument:element-test", "the element test is no longer `issubclass(element, Exception)` applied to the elements of the argument (%s)" % ([node_src(f[0]) for f in forms] or "no issubclass call reached"), fn=et, node=et.node)
-    r5.count("type-class rows", rows)
+            outs = go(v)
+            st, got, w = judge(outs, "ret", lambda x: True)
+            if st == "ok":
+                vals = {s.get(attr, TOP) for s, x, t in outs.of("ret")}
+                if vals != {want}:
+                    st, got = "fail", "stores %s in %s" % (sorted(map(str, vals)), attr)
+            settle(r5, st, "%s = %s accepted and stored as a tuple" % (par, desc), "RetryingClient.__init__:%s:%s" % (par, desc.replace(" ", "-")), "RetryingClient(%s=<%s>) %s; it must be accepted and stored as the tuple of its elements" % (par, desc, got), init, w)
+        for desc, v in [("a dict", Arg("dict", ())), ("a str", Arg("str", ())), ("a frozenset", Arg("frozenset", (A,))), ("an int", Const(5))]:
+            rows += 1
+            st, got, w = judge(go(v), "raise", "ValueError")
+            settle(r5, st, "%s = %s rejected with ValueError" % (par, desc), "RetryingClient.__init__:%s:%s" % (par, desc.replace(" ", "-")), "RetryingClient(%s=<%s>) %s; only None, tuple, set and list are accepted, anything else is rejected with ValueError" % (par, desc, got), init, w)
+        for desc, v in [("[KeyboardInterrupt, OSError]", Arg("list", (KI, A))), ("(OSError, KeyboardInterrupt)", Arg("tuple", (A, KI))), ("{KeyboardInterrupt}", Arg("set", (KI,)))]:
+            rows += 1
+            st, got, w = judge(go(v), "raise", "ValueError")
+            settle(r5, st, "%s = %s (an element that is not an Exception subclass) rejected with ValueError" % (par, desc), "RetryingClient.__init__:%s:non-exception-element" % par, "RetryingClient(%s=%s) %s; a class that does not derive from Exception must be rejected with ValueError wherever it stands in the collection" % (par, desc, got), init, w)
+    # ---- overlap
+    for desc, rf, dn, clash in [("(OSError, KeyError) / (KeyError,)", Arg("tuple", (A, B_)), Arg("tuple", (B_,)), True), ("[KeyError] / {OSError, KeyError}", Arg("list", (B_,)), Arg("set", (A, B_)), True), ("(OSError,) / (KeyError,)", Arg("tuple", (A,)), Arg("tuple", (B_,)), False), ("(OSError, MemcacheError) / [KeyError]", Arg("tuple", (A, C_)), Arg("list", (B_,)), False)]:
+        rows += 1
+        outs = run(Const(3), rf, dn)
+        if clash:
+            st, got, w = judge(outs, "raise", "ValueError")
+            settle(r5, st, "retry_for / do_not_retry_for = %s: overlap rejected" % desc, "RetryingClient.__init__:overlap-check", "RetryingClient(retry_for / do_not_retry_for = %s) %s; a class present in both lists must be rejected with ValueError" % (desc, got), init, w)
+        else:
+            st, got, w = judge(outs, "ret", lambda x: True)
+            settle(r5, st, "retry_for / do_not_retry_for = %s: disjoint lists accepted" % desc, "RetryingClient.__init__:disjoint-rejected", "RetryingClient(retry_for / do_not_retry_for = %s) %s; disjoint lists are a valid configuration" % (desc, got), init, w)
+    r5.count("constructor rows", rows)
+    r5.floor("constructor rows", rows, 30)
+
+
+def _ivs(lo, hi):
+    return "[%s, %s]" % ("-inf" if lo is None else lo, "+inf" if hi is None else hi)
 
 
 def _fmt(cfg):
